@@ -370,7 +370,34 @@ class CFG:
             return False
         return all(self.dom_set(i) & a_ids for i in b_ids)
 
-    def path_exists(self, src_ids, dst_ids, avoid_ids=(), skip_labels=()):
+    def asserted_infeasible_edges(self):
+        """
+        Edges that cannot be taken because an ``assert <test>`` with the same test text dominates an ``if <test>`` and nothing
+        in between assigns a name used in the test: the false edge of that ``if`` is infeasible.
+        """
+        out = set()
+        asserts = [(i, self.ast[i]) for i in self.g.nodes if self.ast[i] is not None and isinstance(self.ast[i], ast.Assert)]
+        for i, a in asserts:
+            at = ast.unparse(a.test)
+            for j in self.g.nodes:
+                n = self.ast[j]
+                if self.kind[j] == "test" and isinstance(n, ast.If) and ast.unparse(n.test) == at and i in self.dom_set(j):
+                    used = {x.id for x in ast.walk(n.test) if isinstance(x, ast.Name)} | {ast.unparse(x) for x in ast.walk(n.test) if isinstance(x, ast.Attribute)}
+                    clobbered = False
+                    for k in self.g.nodes:
+                        st = self.ast[k]
+                        if st is None or k in (i, j) or not isinstance(st, (ast.Assign, ast.AugAssign)):
+                            continue
+                        tg = st.targets if isinstance(st, ast.Assign) else [st.target]
+                        if any(ast.unparse(t) in used for t in tg) and self.path_exists([i], [k]) and self.path_exists([k], [j]):
+                            clobbered = True
+                    if not clobbered:
+                        for m in self.g.successors(j):
+                            if self.g[j][m]["labels"] == {"false"}:
+                                out.add((j, m))
+        return out
+
+    def path_exists(self, src_ids, dst_ids, avoid_ids=(), skip_labels=(), skip_edges=()):
         """Is there a path src -> dst that does not pass through any node in avoid (src itself may be in avoid only as start)?"""
         avoid = set(avoid_ids)
         dst = set(dst_ids)
@@ -379,6 +406,8 @@ class CFG:
         while stack:
             n = stack.pop()
             for m in self.g.successors(n):
+                if skip_edges and (n, m) in skip_edges:
+                    continue
                 if skip_labels and self.g[n][m]["labels"] <= set(skip_labels):
                     continue
                 if m in dst:
